@@ -365,4 +365,278 @@ theorem halfspaceDispatch3_good (feat : V3 K → List (V3 K)) (hsFirst : Bool) (
     exact good_swap3 sq pos12 hq _ _ _
       (halfspacePfm3_spec sq feat (@Iso3.inverse K (fieldNum K sq) pos12) n br pred (unitQ_inverse sq pos12 hq) hn).1
 
+/-! ## the workspace bookkeeping of `contact_manifolds_composite_shape_shape` -/
+
+section Bookkeeping
+variable {α β : Type}
+
+/-- the label fields of a manifold -/
+def WManifold.labels (m : WManifold α β) : Nat × Nat × Option β × Option β :=
+  (m.subshape1, m.subshape2, m.pos1, m.pos2)
+
+/-- the manifold a part starts this call from: its own manifold of the previous call if it had one, a fresh
+one otherwise -/
+def prevManifold (fresh : Nat → WManifold α β) (ws : Workspace) (ms : List (WManifold α β)) (leaf : Nat) :
+    WManifold α β :=
+  match ws.sub leaf with
+  | some sd => (ms[sd.manifoldId]?).getD (fresh leaf)
+  | none => fresh leaf
+
+/-- the state invariant between calls: every map entry carries the current timestamp and points at a manifold
+labelled with its part; distinct parts point at distinct manifolds; every manifold is pointed at. -/
+structure WsInv (fresh : Nat → WManifold α β) (ws : Workspace) (ms : List (WManifold α β)) : Prop where
+  entry : ∀ leaf sd, ws.sub leaf = some sd →
+    sd.timestamp = ws.timestamp ∧ ∃ m, ms[sd.manifoldId]? = some m ∧ m.labels = (fresh leaf).labels
+  inj : ∀ l1 l2 sd1 sd2, ws.sub l1 = some sd1 → ws.sub l2 = some sd2 → sd1.manifoldId = sd2.manifoldId → l1 = l2
+  surj : ∀ i, i < ms.length → ∃ leaf sd, ws.sub leaf = some sd ∧ sd.manifoldId = i
+
+/-- loop invariant of the traversal after the leaves `done` -/
+structure LoopInv (narrow : Nat → WManifold α β → WManifold α β) (fresh : Nat → WManifold α β) (newTs : Bool)
+    (ws : Workspace) (ms : List (WManifold α β)) (done : List Nat) (st : LoopSt α β) : Prop where
+  new_eq : st.new = done.map (fun l => narrow l (prevManifold fresh ws ms l))
+  visited : ∀ l, l ∈ done → ∃ i, st.sub l = some ⟨i, newTs⟩ ∧ done[i]? = some l
+  untouched : ∀ l, l ∉ done → st.sub l = ws.sub l
+  old_len : st.old.length = ms.length
+  old_get : ∀ l sd, l ∉ done → ws.sub l = some sd → st.old[sd.manifoldId]? = ms[sd.manifoldId]?
+
+private theorem visitLeaf_inv (narrow : Nat → WManifold α β → WManifold α β) (clr : α → α) (fresh : Nat → WManifold α β)
+    (newTs : Bool) (ws : Workspace) (ms : List (WManifold α β)) (hinv : WsInv fresh ws ms)
+    (done : List Nat) (st : LoopSt α β) (x : Nat) (hx : x ∉ done)
+    (h : LoopInv narrow fresh newTs ws ms done st) :
+    ∃ st', visitLeaf narrow clr fresh newTs st x = some st' ∧
+      LoopInv narrow fresh newTs ws ms (done ++ [x]) st' := by
+  have hlen : st.new.length = done.length := by rw [h.new_eq]; simp
+  have hsubx : st.sub x = ws.sub x := h.untouched x hx
+  have visited' : ∀ (sub' : Nat → Option SubDetector), (∀ l, sub' l = if l = x then some ⟨st.new.length, newTs⟩ else st.sub l) →
+      ∀ l, l ∈ done ++ [x] → ∃ i, sub' l = some ⟨i, newTs⟩ ∧ (done ++ [x])[i]? = some l := by
+    intro sub' hsub' l hl
+    rw [hsub' l]
+    by_cases hlx : l = x
+    · subst hlx
+      refine ⟨st.new.length, by simp, ?_⟩
+      rw [hlen]; simp
+    · have hld : l ∈ done := by
+        rcases List.mem_append.mp hl with h1 | h1
+        · exact h1
+        · simp at h1; exact absurd h1 hlx
+      obtain ⟨i, hi1, hi2⟩ := h.visited l hld
+      refine ⟨i, by simp [hlx, hi1], ?_⟩
+      have : i < done.length := by
+        rcases Nat.lt_or_ge i done.length with h' | h'
+        · exact h'
+        · rw [List.getElem?_eq_none h'] at hi2; cases hi2
+      rw [List.getElem?_append_left this]; exact hi2
+  have untouched' : ∀ (sub' : Nat → Option SubDetector), (∀ l, sub' l = if l = x then some ⟨st.new.length, newTs⟩ else st.sub l) →
+      ∀ l, l ∉ done ++ [x] → sub' l = ws.sub l := by
+    intro sub' hsub' l hl
+    have hl1 : l ∉ done := fun h' => hl (List.mem_append_left _ h')
+    have hl2 : l ≠ x := fun h' => hl (by simp [h'])
+    rw [hsub' l]; simp [hl2, h.untouched l hl1]
+  cases hws : ws.sub x with
+  | none =>
+    refine ⟨_, by simp only [visitLeaf, hsubx, hws]; rfl, ?_⟩
+    refine ⟨?_, visited' _ (fun _ => rfl), untouched' _ (fun _ => rfl), h.old_len, ?_⟩
+    · simp [h.new_eq, prevManifold, hws]
+    · intro l sd hl hsd
+      exact h.old_get l sd (fun h' => hl (List.mem_append_left _ h')) hsd
+  | some sd =>
+    obtain ⟨_, m, hm, _⟩ := hinv.entry x sd hws
+    have hold : st.old[sd.manifoldId]? = some m := by rw [h.old_get x sd hx hws]; exact hm
+    refine ⟨_, by simp only [visitLeaf, hsubx, hws, hold]; rfl, ?_⟩
+    refine ⟨?_, visited' _ (fun _ => rfl), untouched' _ (fun _ => rfl), by simp [h.old_len], ?_⟩
+    · simp [h.new_eq, prevManifold, hws, hm]
+    · intro l sd2 hl hsd2
+      have hl1 : l ∉ done := fun h' => hl (List.mem_append_left _ h')
+      have hl2 : l ≠ x := fun h' => hl (by simp [h'])
+      have hne : sd.manifoldId ≠ sd2.manifoldId := fun he => hl2 (hinv.inj x l sd sd2 hws hsd2 he).symm
+      simp only []
+      rw [List.getElem?_set_ne hne]
+      exact h.old_get l sd2 hl1 hsd2
+
+private theorem foldl_visit_inv (narrow : Nat → WManifold α β → WManifold α β) (clr : α → α) (fresh : Nat → WManifold α β)
+    (newTs : Bool) (ws : Workspace) (ms : List (WManifold α β)) (hinv : WsInv fresh ws ms)
+    (todo : List Nat) : ∀ (done : List Nat) (st : LoopSt α β), (done ++ todo).Nodup →
+    LoopInv narrow fresh newTs ws ms done st →
+    ∃ st', todo.foldlM (visitLeaf narrow clr fresh newTs) st = some st' ∧
+      LoopInv narrow fresh newTs ws ms (done ++ todo) st' := by
+  induction todo with
+  | nil => intro done st _ h; exact ⟨st, rfl, by simpa using h⟩
+  | cons x rest ih =>
+    intro done st hnd h
+    have hx : x ∉ done := by
+      intro hxd
+      have := List.nodup_append.mp hnd
+      exact this.2.2 x hxd x (by simp) rfl
+    obtain ⟨st1, h1, h2⟩ := visitLeaf_inv narrow clr fresh newTs ws ms hinv done st x hx h
+    have hnd' : ((done ++ [x]) ++ rest).Nodup := by simpa using hnd
+    obtain ⟨st', h3, h4⟩ := ih (done ++ [x]) st1 hnd' h2
+    refine ⟨st', ?_, by simpa using h4⟩
+    simp only [List.foldlM_cons, h1]
+    exact h3
+
+
+/-- **C14 (bookkeeping), one call.**  For *any* narrow phase that leaves the label fields alone, any `clr`, any
+workspace/manifold storage satisfying the invariant (in particular the empty one), and any duplicate-free list
+of visited leaves: the call does not panic; the new `manifolds` vector is, position by position, the visited
+leaves' manifolds — `narrow` applied to the part's **own** manifold of the previous call if it had one, to a
+fresh `ContactManifold::new()` with the part's labels otherwise; the `sub_detectors` domain is exactly the set
+of visited leaves; and the invariant holds again. -/
+theorem compositeStep_spec (narrow : Nat → WManifold α β → WManifold α β) (clr : α → α)
+    (fresh : Nat → WManifold α β) (ws : Workspace) (ms : List (WManifold α β)) (leaves : List Nat)
+    (hinv : WsInv fresh ws ms) (hnd : leaves.Nodup)
+    (hlab : ∀ l m, (narrow l m).labels = m.labels) :
+    ∃ ws', compositeStep narrow clr fresh ws ms leaves
+        = some (ws', leaves.map (fun l => narrow l (prevManifold fresh ws ms l))) ∧
+      ws'.timestamp = !ws.timestamp ∧
+      (∀ l, (ws'.sub l).isSome = true ↔ l ∈ leaves) ∧
+      WsInv fresh ws' (leaves.map (fun l => narrow l (prevManifold fresh ws ms l))) := by
+  have h0 : LoopInv narrow fresh (!ws.timestamp) ws ms [] ⟨ws.sub, ms, []⟩ :=
+    ⟨rfl, by simp, by simp, rfl, by simp⟩
+  obtain ⟨st, hfold, hl⟩ := foldl_visit_inv narrow clr fresh (!ws.timestamp) ws ms hinv leaves [] _ (by simpa using hnd) h0
+  simp only [List.nil_append] at hl
+  have hprevlab : ∀ l, (prevManifold fresh ws ms l).labels = (fresh l).labels := by
+    intro l
+    simp only [prevManifold]
+    cases hws : ws.sub l with
+    | none => rfl
+    | some sd =>
+      obtain ⟨_, m, hm, hlm⟩ := hinv.entry l sd hws
+      simp [hm, hlm]
+  -- the retained map
+  have hsub : ∀ l, retainTs (!ws.timestamp) st.sub l =
+      if l ∈ leaves then st.sub l else none := by
+    intro l
+    by_cases hl' : l ∈ leaves
+    · obtain ⟨i, hi, _⟩ := hl.visited l hl'
+      simp [retainTs, hi, hl']
+    · simp only [retainTs, hl', if_false, hl.untouched l hl']
+      cases hws : ws.sub l with
+      | none => rfl
+      | some sd =>
+        have := (hinv.entry l sd hws).1
+        simp only [this]
+        cases ws.timestamp <;> simp
+  refine ⟨⟨!ws.timestamp, retainTs (!ws.timestamp) st.sub⟩, ?_, rfl, ?_, ?_⟩
+  · simp only [compositeStep, hfold, hl.new_eq]
+  · intro l
+    simp only [hsub l]
+    by_cases hl' : l ∈ leaves
+    · obtain ⟨i, hi, _⟩ := hl.visited l hl'
+      simp [hl', hi]
+    · simp [hl']
+  · constructor
+    · intro l sd hsd
+      simp only [hsub l] at hsd
+      by_cases hl' : l ∈ leaves
+      · obtain ⟨i, hi, hi2⟩ := hl.visited l hl'
+        simp only [hl', if_true, hi, Option.some.injEq] at hsd
+        subst hsd
+        refine ⟨rfl, narrow l (prevManifold fresh ws ms l), ?_, ?_⟩
+        · simp only [List.getElem?_map, hi2, Option.map_some]
+        · rw [hlab, hprevlab]
+      · simp [hl'] at hsd
+    · intro l1 l2 sd1 sd2 h1 h2 he
+      simp only [hsub] at h1 h2
+      by_cases hl1 : l1 ∈ leaves
+      · by_cases hl2 : l2 ∈ leaves
+        · obtain ⟨i, hi, hi2⟩ := hl.visited l1 hl1
+          obtain ⟨j, hj, hj2⟩ := hl.visited l2 hl2
+          simp only [hl1, hl2, if_true, hi, hj, Option.some.injEq] at h1 h2
+          subst h1; subst h2
+          simp only [] at he
+          subst he
+          rw [hi2] at hj2
+          exact Option.some.inj hj2
+        · simp [hl2] at h2
+      · simp [hl1] at h1
+    · intro i hi
+      simp only [List.length_map] at hi
+      have hmem : leaves[i] ∈ leaves := List.getElem_mem hi
+      obtain ⟨j, hj, hj2⟩ := hl.visited leaves[i] hmem
+      have hij : j = i := by
+        have hjlt : j < leaves.length := by
+          rcases Nat.lt_or_ge j leaves.length with h' | h'
+          · exact h'
+          · rw [List.getElem?_eq_none h'] at hj2; cases hj2
+        rw [List.getElem?_eq_getElem hjlt, Option.some.injEq] at hj2
+        exact (List.Nodup.getElem_inj_iff hnd).mp hj2
+      refine ⟨leaves[i], ⟨j, !ws.timestamp⟩, ?_, hij⟩
+      simp [hsub, hmem, hj]
+
+/-- the empty workspace with the empty manifold vector satisfies the invariant -/
+theorem wsInv_new (fresh : Nat → WManifold α β) : WsInv fresh Workspace.new ([] : List (WManifold α β)) :=
+  ⟨by intro l sd h; simp [Workspace.new] at h, by intro l1 l2 sd1 sd2 h; simp [Workspace.new] at h,
+   by intro i hi; simp at hi⟩
+
+/-- **C14 (bookkeeping), all histories.**  From any state satisfying the invariant (e.g. the empty one), for
+every sequence of calls — each with its own label-preserving narrow phase and its own duplicate-free set of
+visited leaves, in any order, with parts appearing, disappearing and re-appearing — no call panics and the
+invariant holds at the end (hence `compositeStep_spec` applies to every single call of the history). -/
+theorem compositeRun_ok (clr : α → α) (fresh : Nat → WManifold α β)
+    (calls : List ((Nat → WManifold α β → WManifold α β) × List Nat)) :
+    ∀ (ws : Workspace) (ms : List (WManifold α β)), WsInv fresh ws ms →
+    (∀ c ∈ calls, c.2.Nodup ∧ ∀ l m, (c.1 l m).labels = m.labels) →
+    ∃ ws' ms', compositeRun clr fresh ws ms calls = some (ws', ms') ∧ WsInv fresh ws' ms' := by
+  induction calls with
+  | nil => intro ws ms h _; exact ⟨ws, ms, rfl, h⟩
+  | cons c rest ih =>
+    intro ws ms h hc
+    obtain ⟨hnd, hlab⟩ := hc c (by simp)
+    obtain ⟨ws1, h1, _, _, h4⟩ := compositeStep_spec c.1 clr fresh ws ms c.2 h hnd hlab
+    obtain ⟨ws', ms', h5, h6⟩ := ih ws1 _ h4 (fun c' hc' => hc c' (by simp [hc']))
+    refine ⟨ws', ms', ?_, h6⟩
+    obtain ⟨cn, cl⟩ := c
+    simp only [compositeRun, h1]
+    exact h5
+
+
+/-- **C14 (bookkeeping), the property's last sentence, per part.**  After a successful call: exactly one manifold
+per visited leaf (same count, same order); the manifold at position `i` is labelled with the labels of part
+`leaves[i]` (id and pose, respecting `flipped`); if that part had a manifold in the previous call it is the
+narrow phase applied to **that** manifold (data continuity); if not, to a fresh `ContactManifold::new()`. -/
+theorem compositeStep_parts (narrow : Nat → WManifold α β → WManifold α β) (clr : α → α)
+    (fresh : Nat → WManifold α β) (ws ws' : Workspace) (ms ms' : List (WManifold α β)) (leaves : List Nat)
+    (hinv : WsInv fresh ws ms) (hnd : leaves.Nodup) (hlab : ∀ l m, (narrow l m).labels = m.labels)
+    (hres : compositeStep narrow clr fresh ws ms leaves = some (ws', ms')) :
+    ms'.length = leaves.length ∧
+    ∀ (i l : Nat), leaves[i]? = some l →
+      (∀ (sd : SubDetector) (m : WManifold α β), ws.sub l = some sd → ms[sd.manifoldId]? = some m → ms'[i]? = some (narrow l m)) ∧
+      (ws.sub l = none → ms'[i]? = some (narrow l (fresh l))) ∧
+      (∃ m' : WManifold α β, ms'[i]? = some m' ∧ m'.labels = (fresh l).labels) := by
+  obtain ⟨ws1, h1, _, _, h4⟩ := compositeStep_spec narrow clr fresh ws ms leaves hinv hnd hlab
+  rw [h1] at hres
+  simp only [Option.some.injEq, Prod.mk.injEq] at hres
+  obtain ⟨rfl, rfl⟩ := hres
+  refine ⟨by simp, ?_⟩
+  intro i l hil
+  refine ⟨?_, ?_, ?_⟩
+  · intro sd m hsd hm
+    simp [List.getElem?_map, hil, prevManifold, hsd, hm]
+  · intro hnone
+    simp [List.getElem?_map, hil, prevManifold, hnone]
+  · refine ⟨narrow l (prevManifold fresh ws ms l), by simp [List.getElem?_map, hil], ?_⟩
+    rw [hlab]
+    simp only [prevManifold]
+    cases hws : ws.sub l with
+    | none => rfl
+    | some sd =>
+      obtain ⟨_, m, hm, hlm⟩ := hinv.entry l sd hws
+      simp [hm, hlm]
+
+/-- a narrow phase that counts how many consecutive calls a part has been alive -/
+private def bump : Nat → WManifold Nat Unit → WManifold Nat Unit := fun _ m => { m with data := m.data + 1 }
+
+/-- non-vacuity / a concrete history: parts {1,2}, then {2,3}, then {3,1}: after the third call there are
+exactly two manifolds, for parts 3 (alive for 2 calls: its data was carried over) and 1 (re-appeared: fresh). -/
+example : (compositeRun id (freshManifold false 0 (fun _ => (none : Option Unit))) Workspace.new []
+      [(bump, [1, 2]), (bump, [2, 3]), (bump, [3, 1])]).map (fun r => r.2.map (fun m => (m.subshape1, m.data)))
+    = some [(3, 2), (1, 1)] := by decide
+
+/-- the `Nodup` hypothesis is needed: a leaf visited twice in one call makes the real code index
+`old_manifolds` with an id of the *new* vector — here out of bounds (`None` = panic). -/
+example : (compositeStep bump id (freshManifold false 0 (fun _ => (none : Option Unit))) Workspace.new [] [5, 5]).isNone
+    = true := by decide
+
+end Bookkeeping
+
 end C14
